@@ -309,6 +309,24 @@ func judgeC05(c *Ctx, ref *parseRef, p *DPResult) (string, bool, interface{}) {
 	{
 		m := ref.job.LR.Parse(ref.toks, model.ParseOpts{FailAt: -1})
 		exp := map[string]interface{}{"accepted": m.Accepted, "reductions": reductionsOf(m.Log)}
+		if m.Diverges {
+			// the resolved machine itself runs for ever on this input (a reduction cycle that the
+			// resolution rule mandates): the parser must run along with it, not return
+			c.Add("inputs_on_which_the_resolved_machine_diverges", 1)
+			if p.End != "abort" {
+				return "Parse returned, but the resolved LR(1) machine never terminates on this input: the parser does not follow the resolution", true, exp
+			}
+			a, b := reductionsOf(m.Log), reductionsOf(p.Log)
+			if len(a) > len(b) {
+				a = a[:len(b)]
+			} else {
+				b = b[:len(a)]
+			}
+			if !sameList(a, b) {
+				return "reduction sequence differs from the (diverging) resolved LR(1) machine", true, exp
+			}
+			return "", true, exp
+		}
 		if m.StepsExceeded {
 			c.Inconclusive("reference exceeded its step bound on " + ref.job.Name)
 			return "", false, exp
@@ -520,6 +538,12 @@ func judgeC07(c *Ctx, ref *parseRef, p *DPResult) (string, bool, interface{}) {
 		exp := map[string]interface{}{"log": m.Log, "accepted": m.Accepted, "error_token": m.ErrTok, "recoveries": m.Recoveries}
 		if p.End == "panic" {
 			return "Parse panicked: " + p.Msg, true, exp
+		}
+		if m.Diverges {
+			// only with -a: the resolution rule of C05 itself yields a reduction cycle (cyclic or
+			// hidden-left-recursive grammar); C07 cannot ask the parser to return here. C05 judges it.
+			c.Add("inputs_outside_domain_resolved_machine_diverges", 1)
+			return "", false, exp
 		}
 		if p.End == "abort" {
 			if m.StepsExceeded {
